@@ -249,6 +249,9 @@ func checkParser(c *checkCtx, prop string) {
 			}
 			iv := canonImpl(impl)
 			mv := canonModel(model)
+			if strings.HasPrefix(impl, "HANG") && strings.HasPrefix(model, "FUEL") && !recovery {
+				continue // non-termination of error recovery is C09's subject
+			}
 			if strings.HasPrefix(impl, "HANG") && strings.HasPrefix(model, "FUEL") {
 				c.addFinding(finding{Signature: "parse-does-not-terminate",
 					Desc:   fmt.Sprintf("parse() does not return on tokens %v (the model runs out of fuel in error recovery as well)", tokenNames(j.s.dump, w)),
